@@ -50,6 +50,8 @@ def gen_cases(rng, tier):
             cfg = L.rand_config(rng, tier, want=rng.choice(['vec', 'timevec']))
         if defect == 'missing_key' and not (cfg['time_order'] and not cfg['vector_order']):
             cfg = L.rand_config(rng, tier, want='time')
+        if defect == 'bad_ordinate':
+            cfg = L.rand_config(rng, tier, want=rng.choice(['time', 'timevec']), force_abs=True)
         if defect == 'tie_straddle' and (cfg['mode'] != 'guess' or cfg['S'] < 2 or cfg['T'] < 2):
             cfg = L.rand_config(rng, tier, want='guess')
             cfg['S'] = max(cfg['S'], 2)
@@ -110,7 +112,7 @@ def oracle(case, obs):
     for (op, o), e in zip(adds, exp):
         if o['r'] != e:
             return 'add of file %d: expected %s, implementation %s' % (op[1], e, o['r'])
-        if e != 'ok' and o['ids'] != prev_ids:
+        if e != 'ok' and (o['ids'] != prev_ids or not o['dirty']):
             return 'refused add of file %d changed the stack' % op[1]
         prev_ids = o['ids']
     g = L.grid_complete(acc, ct, cv, obs['guesses'])
